@@ -188,15 +188,20 @@ CLAIMS = {
     },
     "C19": {
         "level": "other",
-        "text": "Table and flow rules decided on the source: DefaultParams is a frozen dataclass with hashable, correctly typed defaults and "
-                "as_dict = asdict; every subclass re-binds base fields only as typed dataclass fields in a frozen dataclass (otherwise the "
-                "override is dead); in the config parser every read of an optional TOML key is guarded on the CFG, operations accept the kind "
-                "of the default they may hold, handlers catch what the guarded conversions raise, no builtin is used as data, [output] "
-                "defaults reach the returned dict, and the sum/length checks raise the config error and dominate the return. What the CLI does "
-                "with the configuration is NOT decided.",
-        "note": "Trusted: the API raiser table and required-input table in pdxsa/checks/c19.py; dataclass semantics. Six defects found by these "
-                "rules were repaired (fix: commits 4ef0bda, 1653a54, bef1ec9, 47cf3aa, b5cd9cd).",
-        "technique": "dataclass/enum table checks + CFG key-definedness + kind analysis + handler/raiser agreement + scope resolution",
+        "text": "DefaultParams is a frozen dataclass with hashable, correctly typed defaults whose as_dict (interpreted on a fully overridden "
+                "record) agrees with attribute access and round-trips; every subclass re-binds base fields only as typed dataclass fields in a "
+                "frozen dataclass (otherwise the override is dead). parse_config is interpreted with the file layer stubbed over every subset of "
+                "the optional keys of [output], [input] and [parameters] in all three input modes (each parses, omitted keys take the documented "
+                "defaults, phases/fabric are enumeration members) and over a table of single-fault configurations (each raises ConfigError); "
+                "_parse_phase is interpreted per kind of TOML value. AST rules: operations accept the kind of the default they may hold, handlers "
+                "catch what the guarded conversions raise, no builtin is used as data, defaults are applied on every path. What the CLI does with "
+                "the configuration is NOT decided.",
+        "note": "Trusted: the API raiser table in pdxsa/checks/c19.py; dataclass semantics; the documented defaults transcribed from the "
+                "configuration reference. Six defects found by these rules were repaired (fix: commits 4ef0bda, 1653a54, bef1ec9, 47cf3aa, b5cd9cd). "
+                "The earlier CFG key-definedness and post-condition rules were removed after they raised false alarms on behaviour-preserving "
+                "refactors; the interpreted configuration table decides the same clauses exactly.",
+        "technique": "dataclass/enum table checks + abstract interpretation of parse_config over the finite table of optional-key subsets and "
+                     "single-fault configurations + kind analysis + handler/raiser agreement + scope resolution",
     },
     "C20": {
         "level": "other",
